@@ -68,6 +68,22 @@ func (s *State) Clone() *State {
 	return n
 }
 
+// knows reports whether the path condition syntactically contains c (true) or its negation (false).
+func (s *State) knows(c *T) (bool, bool) {
+	cs := c.String()
+	ns := Not(c).String()
+	for i := len(s.PC) - 1; i >= 0; i-- {
+		ps := s.PC[i].String()
+		if ps == cs {
+			return true, true
+		}
+		if ps == ns {
+			return true, false
+		}
+	}
+	return false, false
+}
+
 func (s *State) Assume(t *T) {
 	if t == nil || t == True {
 		return
